@@ -248,6 +248,17 @@ class Obj:
         return self.label or "Obj(%s)" % (self.cls.name if self.cls is not None else "?")
 
 
+class Lenient(Obj):
+    """an outside object whose shape is not modelled (a protobuf message, ...): every attribute exists (and is again
+    such an object), every method can be called; stores and calls are recorded in `log` of the root"""
+
+    def __init__(self, label, root=None):
+        Obj.__init__(self, None, {}, closed=False, label=label)
+        self.root = root or self
+        if root is None:
+            self.log = []
+
+
 class Ctor:
     """result of constructing / calling something the evaluator does not look into: name + bound arguments"""
 
@@ -797,6 +808,8 @@ class Ev:
             if v.children.items:
                 return True
             raise Undecided("truth value of an element without children (use `is not None`)")
+        if isinstance(v, Lenient):
+            raise Undecided("truth of the unmodelled object %r" % (v,))
         if isinstance(v, (Obj, MatchV, EnumMember, Ctor, ClassRef, FuncV, PatternV, PyFunc)):
             return True
         raise Undecided("truth of %r is not decidable%s" % (v, " at line %s" % node.lineno if node is not None else ""))
@@ -987,6 +1000,9 @@ class Ev:
     # ---- attribute access
     def getattr(self, v, attr, node, mod):
         if isinstance(v, Obj):
+            if isinstance(v, Lenient) and attr not in v.fields and attr not in v.dyn:
+                v.fields[attr] = Lenient("%s.%s" % (v.label, attr), v.root)
+                return v.fields[attr]
             if attr == "__dict__":
                 return DictV.alias(v.fields)
             if attr == "__class__" and v.cls is not None:
@@ -1162,6 +1178,8 @@ class Ev:
                     self.call_fn(FuncV(p["set"], self_val=o, cls=owner, mod=owner.mod), [v], {}, target)
                     return
             o.fields[target.attr] = v
+            if isinstance(o, Lenient):
+                o.root.log.append(("%s.%s =" % (o.label, target.attr), [v], {}))
             self.trace.append(("store", target, (o, target.attr, v)))
         elif isinstance(target, ast.Subscript):
             o = self.ev(target.value, env, mod)
@@ -1582,6 +1600,9 @@ class Ev:
                 return Ctor(c.name, self.bind_args(init, args, kwargs, drop_first=True, mod=owner.mod))
             if isinstance(target, PyFunc):
                 return target.fn(args, kwargs)
+            if isinstance(target, Lenient):
+                target.root.log.append((target.label, list(args), dict(kwargs)))
+                return Lenient(target.label + "()", target.root)
             if isinstance(target, Builtin):
                 return self.builtin(target.name, args, kwargs, e)
             if isinstance(target, ModRef):
@@ -1803,6 +1824,8 @@ class Ev:
             return NONE
         if name in self.model_calls:
             return self.model_calls[name](args, kwargs)
+        if any(part.endswith("_pb2") for part in name.split(".")[:-1]) and not args:
+            return Lenient(name.split(".")[-1] + "()")  # a protobuf message
         last = name.split(".")[-1]
         if last == "Element" and args:
             el = ElemV(args[0], args[1].d if len(args) > 1 and isinstance(args[1], DictV) else None)
